@@ -352,6 +352,11 @@ func firstLines(s string, n int) string {
 	if len(l) > n {
 		l = l[:n]
 	}
+	for i := range l {
+		if len(l[i]) > 700 {
+			l[i] = l[i][:700] + " …[truncated]"
+		}
+	}
 	return strings.Join(l, "\n  ")
 }
 
